@@ -75,8 +75,11 @@ def tlc(module, cfg, workers=4, env=None, timeout=3600, extra=(), heap="3g", tag
     return res
 
 
-def model_check(module, cfg_name, workers=8, timeout=3600, env=None, heap="6g", coverage=False):
+def model_check(module, cfg_name, workers=8, timeout=None, env=None, heap="6g", coverage=False):
     """Act M: exhaustive check of spec/<cfg_name>. Raises TLCError unless it completes without error."""
+    # exhaustive runs of the thorough tier may take long on a loaded machine: 1 h quick, 6 h thorough
+    if timeout is None:
+        timeout = 21600 if os.environ.get("VERIF_TIER_EFFECTIVE") == "thorough" else 3600
     res = tlc(module, os.path.join(SPEC, cfg_name), workers=workers, timeout=timeout, env=env, heap=heap,
               tag=cfg_name, coverage=coverage)
     if not res["completed"]:
